@@ -64,6 +64,7 @@ package values
 //@   safe
 //@   requires typedValue != nil
 //@   modifies nothing
+//@   ensures errWF(err)
 //@   ensures {C17} string-back: typedValue.Type == configapi.ValueType_STRING ==> err == nil && g != nil && isType(g.Value, "*gnmi.TypedValue_StringVal") && asType(g.Value, "*gnmi.TypedValue_StringVal").StringVal == tvString(typedValue)
 //@   ensures {C17} int-back: typedValue.Type == configapi.ValueType_INT ==> err == nil && g != nil && isType(g.Value, "*gnmi.TypedValue_IntVal") && asType(g.Value, "*gnmi.TypedValue_IntVal").IntVal == tvInt(typedValue)
 //@   ensures {C17} uint-back: typedValue.Type == configapi.ValueType_UINT ==> err == nil && g != nil && isType(g.Value, "*gnmi.TypedValue_UintVal") && asType(g.Value, "*gnmi.TypedValue_UintVal").UintVal == tvUint(typedValue)
